@@ -511,6 +511,9 @@ def update_baseline():
         kf_omit = set(k["obligation"] for k in load_kf() if k.get("status") == "known")
         r = run_unit(sp, "quick", 0, kf_omit, False)
         print(r.unit, r.status, r.reason[:300], f"{sum(o['discharged'] for o in r.obligations)}/{len(r.obligations)}")
+        for fid, info in r.functions.items():
+            if info.get("skipped_hints"):
+                print(f"  WARNING {r.unit}/{fid}: spec parts that found no anchor on this tree: {info['skipped_hints']}")
         for o in r.obligations:
             if o["discharged"]: allobs.add(o["oid"])
     p = os.path.join(ROOT, "specs", "BASELINE_OBLIGATIONS.json")
